@@ -25,15 +25,10 @@ M = [
     ('C03-dedupe-keeps-inner', 'C03,C10', 'merge_middlewares keeps the inner instance of a duplicated unique type', 'clastic/middleware/core.py',
      "        if mw.unique and mw in merged:\n            if mw.reorderable:\n                continue\n",
      "        if mw.unique and mw in merged:\n            if mw.reorderable:\n                merged[merged.index(mw)] = mw\n                continue\n"),
-    ('C04-builtins-not-a-source', 'C04', 'src_provides_map without builtins', 'clastic/route.py',
-     "                            'builtins': set(RESERVED_ARGS),\n", "                            'builtins': set(),\n"),
     ('C04-skip-render-provides', 'C04', 'check_middlewares ignores render_provides', 'clastic/middleware/core.py',
      "        for arg in mw.render_provides:\n            provided_by[arg].append(mw)\n", ""),
     ('C04-context-in-request-phase', 'C04,C01', 'request phase may require context', 'clastic/middleware/core.py',
      "    req_avail = set(preprovided) - set(['next', 'context'])\n", "    req_avail = set(preprovided) - set(['next'])\n"),
-    ('C04-dispatch-state-not-reserved', 'C04', '_dispatch_state no longer reserved', 'clastic/route.py',
-     "_REQUEST_BUILTINS = ('request', '_application', '_route', '_dispatch_state')\n",
-     "_REQUEST_BUILTINS = ('request', '_application', '_route')\n"),
     ('C05-plus-not-multi', 'C05', "'+' treated as single-arity", 'clastic/route.py', "                 '+': True,\n", "                 '+': False,\n"),
     ('C05-int-without-sign', 'C05', 'int pattern without sign', 'clastic/route.py', "_INT_PATTERN = r'([+-]|\\ *)[0-9]+'", "_INT_PATTERN = r'\\ *[0-9]+'"),
     ('C05-float-needs-dot', 'C05', 'float pattern requires a dot', 'clastic/route.py',
@@ -73,9 +68,6 @@ M = [
      "        self.prefix = prefix.rstrip('/')\n", "        self.prefix = prefix if prefix != '/' else ''\n"),
     ('C10-always-rebind-render', 'C10', 'embedding always re-binds the render argument', 'clastic/application.py',
      "        kwargs.setdefault('rebind_render', self.rebind_render)\n", "        kwargs['rebind_render'] = True\n"),
-    ('C11-insert-while-binding', 'C11', 'add() inserts each route as soon as it is bound', 'clastic/application.py',
-     "        for rt in self.app.routes:\n            if isinstance(rt, NullRoute):\n                continue\n            bound_rt = rt.bind(app, **kwargs)\n            ret.append(bound_rt)\n",
-     "        for rt in self.app.routes:\n            if isinstance(rt, NullRoute):\n                continue\n            bound_rt = rt.bind(app, **kwargs)\n            ret.append(bound_rt)\n            app.routes.append(bound_rt); app.routes.pop()\n"),
     ('C11-shared-middleware-list', 'C11,C03', 'Route keeps the caller\'s middleware list and binding appends to it', 'clastic/route.py',
      "        self.middlewares = list(kwargs.pop('middlewares', []))\n", "        self.middlewares = kwargs.pop('middlewares', [])\n"),
     ('C12-params-on-self', 'C12', 'dispatch stashes the current params on the application', 'clastic/application.py',
